@@ -603,3 +603,79 @@ pub fn long_lookahead_case(rng: &mut Rng, st: &mut Stats, gate_only: bool) -> Ca
         Err(p) => CaseOutcome::Violated(Violation::new(format!("panic: {}", p), case())),
     }
 }
+
+// ------------------------------------------------------------------------------------------------
+// C12 stream 3: the amount of work done in between
+// ------------------------------------------------------------------------------------------------
+
+/// "A Scanner can be reused for any number of inputs": between two scans of the same probe text the
+/// same scanner (or another scanner, or another iterator while the probing iterator is alive) does W
+/// units of other work, with W swept over windows around 2^7, 2^8, 2^9, 2^14, 2^16/3, 2^15 and 2^16 -
+/// where a counter, a generation number or a ring of marks that is carried from scan to scan wraps.
+/// The probe must tokenize the same every time. Everything of one case runs on one thread.
+pub fn c12_work_sweep_case(rng: &mut Rng, st: &mut Stats) -> CaseOutcome {
+    let mk = |pats: &[(&str, usize)]| ScannerCfg::single(pats.iter().map(|(s, tt)| RefPattern { re: parse_to_ir(s).unwrap(), tt: *tt, la: None }).collect());
+    let cfg = mk(&[("abc", 0), ("x+", 1), ("y", 2), ("ab", 3)]);
+    let other_cfg = mk(&[("[x-y]", 7), ("q+", 8)]);
+    let case = |what: String| json!({"kind": "scale", "detail": what});
+    let (scanner, other) = match (cfg.build_uncached(), other_cfg.build_uncached()) {
+        (Ok(a), Ok(b)) => (a, b),
+        _ => return CaseOutcome::Violated(Violation::new("build failed".to_string(), case(String::new()))),
+    };
+    let probe = "abc abcab";
+    let expected = vec![Tok { tt: 0, start: 0, end: 3 }, Tok { tt: 0, start: 4, end: 7 }, Tok { tt: 3, start: 7, end: 9 }];
+    // kind of work in between: unmatched characters / one long token / many short tokens, done by
+    // the same scanner, by another scanner, or while the probing iterator is alive (half consumed)
+    let kind = rng.below(3);
+    let who = rng.below(3);
+    let filler_char = ['z', 'x', 'y'][kind];
+    let centers = [128usize, 256, 512, 16_384, 21_845, 32_768, 65_536];
+    let big = "".to_string() + &std::iter::repeat(filler_char).take(65_536 + 80).collect::<String>();
+    let r = sut(|| -> Result<(), String> {
+        for c in centers {
+            for w in c - 70..=c + 70 {
+                let filler = &big[..w];
+                let mut live = scanner.find_iter(probe);
+                let first = if who == 2 { live.next().map(Tok::from) } else { None };
+                // the work in between
+                let n = if who == 1 { other.find_iter(filler).count() } else { scanner.find_iter(filler).count() };
+                let exp_n = match (who, kind) {
+                    (1, 0) => 0,
+                    (1, _) => w,
+                    (_, 0) => 0,
+                    (_, 1) => 1,
+                    _ => w,
+                };
+                if n != exp_n {
+                    return Err(format!("the filler of {} characters {:?} was tokenized into {} tokens, expected {}", w, filler_char, n, exp_n));
+                }
+                st.count("probe_scans_after_swept_amount_of_work");
+                let got: Vec<Tok> = if who == 2 {
+                    first.into_iter().chain(live.map(Tok::from)).collect()
+                } else {
+                    scanner.find_iter(probe).map(Tok::from).collect()
+                };
+                if got != expected {
+                    return Err(format!(
+                        "after {} characters {:?} scanned in between ({}), the probe {:?} is tokenized as {:?} instead of {:?}",
+                        w,
+                        filler_char,
+                        ["by the same scanner", "by another scanner", "by another iterator while the probing iterator was alive"][who],
+                        probe,
+                        got,
+                        expected
+                    ));
+                }
+            }
+        }
+        Ok(())
+    });
+    match r {
+        Ok(Ok(())) => {
+            st.nontrivial(hash_of(&(kind, who)));
+            CaseOutcome::Ok
+        }
+        Ok(Err(e)) => CaseOutcome::Violated(Violation::new(e.clone(), case(e))),
+        Err(p) => CaseOutcome::Violated(Violation::new(format!("panic: {}", p), case(String::new()))),
+    }
+}
